@@ -193,6 +193,16 @@ func WellFormed(kind Kind, b []byte) error {
 	case KProtected:
 		return wfProtected(n, nil)
 	case KUnprotected:
+		// the bare bucket decoder is not an envelope decoder: the CBOR library looks through tags in
+		// its values, and the statement's "no tags" clause is about the envelope, so the parameter
+		// rules are applied to the untagged content
+		if root, err := rc.MParse(b, false); err == nil && root.Major == 5 {
+			if rc.StripAllTags(&root) > 0 {
+				if nn, err := rc.Parse(root.Enc()); err == nil {
+					n = nn
+				}
+			}
+		}
 		if n.Major != 5 {
 			return ill("shape", "unprotected header must be a map")
 		}
